@@ -315,6 +315,7 @@ func (b *BoxLayout) SetOrientation(orient Orientation) {
 	if b.orient != orient {
 		b.orient = orient
 		b.changed = true
+		b.layout()
 		b.PostEventWidgetContent(b)
 	}
 }
